@@ -80,6 +80,8 @@ func (v *Value) UnmarshalNBT(tagType byte, r nbt.DecoderReader) error {
 		length, err := readInt32(r)
 		if err != nil {
 			return err
+		} else if length < 0 {
+			return errNegativeLength
 		}
 
 		v.list = v.list[:0]
